@@ -1,4 +1,6 @@
 import CandidModel.Wire
+import CandidModel.Native
+import CandidModel.Proofs.NativeLocal
 /-
   C08 — Native decoding agrees with untyped decoding at the same Candid type.
   The model side of this property is the specification decoder at `T::ty()`; native decoding of every
@@ -48,5 +50,94 @@ theorem text_is_not_blob (env : Env) (fuel : Nat) (v : Val) :
   constructor
   · unfold coerce; rw [h1, h2]
   · unfold coerce; rw [h1, h2]; simp
+
+
+/-! ## the specialised paths of the native decoder (mirror: `CandidModel/Native.lean`) -/
+open Candid.Native Candid.De
+
+/-- **bounded vectors accept exactly the vectors within their limits**: the visitor of `BoundedVec<L, S, E, T>`
+succeeds on an element reader exactly when the plain vector visitor succeeds with the same elements and these are at
+most `L`, each of data size at most `E`, of total data size at most `S` — for every element reader (hence every path:
+bulk, big-number, generic), every length, every state. -/
+theorem bounded_vector_accepts_exactly_within_limits (f : Flags → St → NR) (maxLen maxTotal maxElem n : Nat)
+    (fl : Flags) (st : St) (vs : List Val) (fl' : Flags) (s' : St) :
+    runSeq (.bounded maxLen maxTotal maxElem) f n fl st = .ok (vs, fl') s' ↔
+      (runSeq .all f n fl st = .ok (vs, fl') s' ∧
+        vs.length ≤ maxLen ∧ (∀ v ∈ vs, dataSize v ≤ maxElem) ∧ (vs.map dataSize).sum ≤ maxTotal) := by
+  simp only [runSeq]
+  rw [iterB_ok_iff, within_iff]
+  constructor
+  · rintro ⟨h, hw⟩
+    refine ⟨h, ?_⟩
+    rcases hw with ⟨h1, h2, h3⟩ | hw
+    · exact ⟨by omega, h2, by omega⟩
+    · subst hw; simp
+  · rintro ⟨h, h1, h2, h3⟩
+    exact ⟨h, Or.inl ⟨by omega, h2, by omega⟩⟩
+
+/-- **the bulk reader of primitive vectors reads what the element-wise path reads** (restated from
+`Proofs/NativeLocal`): for `Vec<T>`, `[T; n]`, `BoundedVec<…, T>` with `T` one of the eleven fixed-width primitives,
+expected and wire element type both that primitive, nothing metered, the announced bytes present. -/
+theorem primitive_vector_shortcut_is_sound (env : Env) (tl : Nat) (renv : REnv) (k : Nat) (vis : SeqVisitor)
+    (p : Prim) (sz : Nat) (hs : primSize p = some sz) (fl : Flags) (n : Nat) (s2 : St) (hu : Unmetered s2)
+    (hfit : n * (3 + sz) ≤ usizeMax) (hbytes : n * sz ≤ s2.input.length) :
+    (bulkElems renv vis (.prim p) fl p n s2).map (fun q => (q.1, Flags.clear)) =
+      genericElems (deN env tl renv (k + 1)) vis (.prim p) fl (.prim p) (.prim p) n s2 :=
+  bulk_reads_what_the_generic_path_reads env tl renv k vis p sz hs fl n s2 hu hfit hbytes
+
+/-- … and it rejects nothing the element-wise path accepts: a vector read element by element had its announced bytes -/
+theorem primitive_vector_shortcut_is_complete (env : Env) (tl : Nat) (renv : REnv) (k : Nat)
+    (p : Prim) (sz : Nat) (hs : primSize p = some sz) (fl : Flags) (n : Nat) (s2 : St) (hu : Unmetered s2)
+    (vs : List Val) (f : Flags) (s' : St)
+    (h : genericElems (deN env tl renv (k + 1)) .all (.prim p) fl (.prim p) (.prim p) n s2 = .ok (vs, f) s') :
+    n * sz ≤ s2.input.length :=
+  generic_success_needs_the_announced_bytes env tl renv k p sz hs fl n s2 hu vs f s' h
+
+/-- the bulk reader is chosen only for identical fixed-width primitives on both sides -/
+theorem primitive_vector_shortcut_only_at_identical_primitives (e w : Ty) (p : Prim) (h : exactPrim e w = some p) :
+    e = .prim p ∧ w = .prim p ∧ (primSize p).isSome := by
+  unfold exactPrim at h
+  split at h
+  · rename_i a b
+    split at h
+    · rename_i hc
+      simp only [Option.some.injEq] at h
+      subst h
+      exact ⟨rfl, by rw [hc.1], hc.2⟩
+    · simp at h
+  · simp at h
+
+/-- **the big-number shortcut** (vectors of `Nat` / `Int`, map values): taken exactly at `nat/nat`, `int/int`, `int/nat`;
+there the unchecked element reader reads what the checked one reads, for every sequence visitor. -/
+theorem bignum_shortcut_only_at_its_three_pairs (ee wire : Ty) (b : Big) : bigOf ee wire = some b ↔
+    (b = .nat ∧ ee = .prim .nat ∧ wire = .prim .nat) ∨ (b = .int ∧ ee = .prim .int ∧ wire = .prim .int) ∨
+    (b = .natAsInt ∧ ee = .prim .int ∧ wire = .prim .nat) := bigOf_eq_some ee wire b
+
+theorem bignum_vector_shortcut_is_sound (env : Env) (tl : Nat) (renv : REnv) (k : Nat) (vis : SeqVisitor)
+    (t : RTy) (b : Big) (wire ee : Ty) (hc : BigCase t b wire ee) (tx : Bool) (n : Nat) (s2 : St) (hu : Unmetered s2)
+    (hfit : n * 3 ≤ usizeMax) :
+    bigElems (deN env tl renv (k + 1)) vis t ⟨none, tx⟩ b wire ee n s2 =
+      genericElems (deN env tl renv (k + 1)) vis t ⟨none, tx⟩ wire ee n s2 :=
+  big_shortcut_reads_what_the_generic_path_reads env tl renv k vis t b wire ee hc tx n s2 hu hfit
+
+/-- the leaf readers under a flag (map values, map keys): same values, same remaining input, same quotas as the
+checked readers at the types the flag stands for -/
+theorem flagged_leaf_readers_are_sound (env : Env) (fuel : Nat) (tx : Bool) (b : Option Big) (st : St) :
+    (nNat env fuel ⟨some .nat, tx⟩ (.prim .nat) (.prim .nat) st).map Prod.fst =
+      (nNat env fuel ⟨none, tx⟩ (.prim .nat) (.prim .nat) st).map Prod.fst ∧
+    (nInt env fuel ⟨some .int, tx⟩ (.prim .int) (.prim .int) st).map Prod.fst =
+      (nInt env fuel ⟨none, tx⟩ (.prim .int) (.prim .int) st).map Prod.fst ∧
+    (nInt env fuel ⟨some .natAsInt, tx⟩ (.prim .nat) (.prim .int) st).map Prod.fst =
+      (nInt env fuel ⟨none, tx⟩ (.prim .nat) (.prim .int) st).map Prod.fst ∧
+    (nText env fuel ⟨b, true⟩ (.prim .text) (.prim .text) st).map Prod.fst =
+      (nText env fuel ⟨b, false⟩ (.prim .text) (.prim .text) st).map Prod.fst :=
+  ⟨nat_shortcut_sound env fuel tx st, int_shortcut_sound env fuel tx st, nat_as_int_shortcut_sound env fuel tx st,
+   text_shortcut_sound env fuel b st⟩
+
+/-- non-vacuity: a bulk read of three `nat16` with nothing metered -/
+example : (bulkElems [] .all (.prim .nat16) Flags.clear .nat16 3
+    { input := [1, 0, 2, 0, 3, 0, 9], gamma := [], dq := none, sq := none, untyped := false }).map (fun q => q.1) =
+    .ok [.nat16 1, .nat16 2, .nat16 3] { input := [9], gamma := [], dq := none, sq := none, untyped := false } := by
+  rfl
 
 end Candid.Props.C08
